@@ -125,30 +125,98 @@ def run(prog, rep):
     rep.floor("C10-R3", 3)
 
 
+PASS_SAMPLE = ("%", "_", "a", "q", "Z", "E", "x", "0", "7")
+
+
 def check_canonizer_passthrough(prog, rep, rule):
+    """A character of a wild-card label (`%`, `_`, letters, digits - `3` and `V` excepted, which are quantifier symbols when a `{`
+    follows) has exactly one effect in the canoniser: it is appended to the canonical string.  Decided on the summary of
+    canonize_subform (helpers and methods of the layer inlined): the conditions of every effect inside the character loop are
+    evaluated with the current character replaced by a representative; the only effect that may remain feasible is `push(ch)`.
+    Whether the dispatch is a `match`, an if-chain, a helper or a method does not matter."""
+    import norm
+    import partial
     f = prog.lib_fn("evaluation::canonization::canonize_subform")
     if f is None:
         rep.unresolved(rule, "canonize_subform", "", "function not found")
         return
     rep.functions.add(f.qual)
-    # arms of the character match: literal characters with special treatment
-    special = []
-    default_push = False
-    for n in walk_nodes(f.body):
-        if n.get("k") == "match" and str(n["e"].get("ty")) == "char":
-            for arm in n["arms"]:
-                chars = pat_chars(arm["pat"])
-                if chars is None:
-                    # default arm: must push the character unchanged
-                    for x in walk_nodes(arm["body"]):
-                        if x.get("k") == "mcall" and x.get("name") == "push":
-                            default_push = True
+    where = f"{f.file}:{f.line}"
+    s = terms.Engine(prog, inline=True, hooks=E.eval_hooks()).summary(f)
+    sites = s.all_sites()
+    # the current character: what the literal-character tests of the path conditions test
+    votes = {}
+
+    def char_desc(d):
+        if d[0] == "lit" and isinstance(d[1], str) and len(d[1]) == 1:
+            return True
+        if d[0] == "or":
+            return all(char_desc(x) for x in d[1])
+        return False
+    for st in sites:
+        for c in st.pc:
+            if c[0] == "match" and char_desc(c[2]):
+                votes[c[1]] = votes.get(c[1], 0) + 1
+            elif c[0] == "if":
+                for y in [c[1]] + list(subterms(c[1])):
+                    if y[0] == "bin" and y[1] in ("==", "!="):
+                        for a, b in ((y[2], y[3]), (y[3], y[2])):
+                            if b[0] == "lit" and isinstance(b[1], str) and len(b[1]) == 1 and a[0] != "lit":
+                                votes[a] = votes.get(a, 0) + 1
+                    if y[0] == "matches" and char_desc(y[2]):
+                        votes[y[1]] = votes.get(y[1], 0) + 1
+    if not votes:
+        rep.unresolved(rule, "canonize_subform/passthrough", where, "no test of the current character against a literal was found")
+        return
+    ch = max(votes, key=lambda k: votes[k])
+    # the loop that reads it
+    loop_ids = set()
+    for st in sites:
+        last_loop = None
+        for c in st.pc:
+            if c[0] == "loop":
+                last_loop = c[1]
+            elif c[0] in ("if", "match") and (c[1] == ch or terms.contains(c[1], lambda z: z == ch)):
+                if last_loop is not None:
+                    loop_ids.add(last_loop)
+                break
+    EFFECTS = ("push", "push_str", "insert", "insert_str", "extend", "clear", "remove", "pop", "truncate", "entry", "get_mut", "retain", "drain")
+    nz = norm.Normalizer()
+    problems = []
+    n_push = 0
+    specials = sorted({d_ for st in sites for c in st.pc if c[0] == "match" and c[1] == ch and char_desc(c[2])
+                       for d_ in ([c[2][1]] if c[2][0] == "lit" else [x[1] for x in c[2][1] if x[0] == "lit"])})
+    for r in PASS_SAMPLE:
+        lit = ("lit", r)
+        pushes = 0
+        for st in sites:
+            if not any(c[0] == "loop" and c[1] in loop_ids for c in st.pc):
+                continue
+            is_eff = (st.kind == "mcall" and st.name in EFFECTS) or st.kind in ("assign", "assignop")
+            if not is_eff:
+                continue
+            pc2 = []
+            for c in st.pc:
+                if c[0] == "if":
+                    pc2.append(("if", nz(partial.simplify(terms.replace(c[1], ch, lit)))) + tuple(c[2:]))
+                elif c[0] == "match":
+                    pc2.append(("match", nz(partial.simplify(terms.replace(c[1], ch, lit)))) + tuple(c[2:]))
                 else:
-                    special += chars
-    bad = [c for c in special if c == "%" or c.isalnum() and c not in ("3", "V") or c == "_"]
-    rep.check(default_push and not bad and special, rule, "canonize_subform/passthrough", f"{f.file}:{f.line}",
-              f"special arms only for {sorted(set(special))}; every other character is copied",
-              f"characters {bad} get special treatment in the canoniser (a wild-card label could be rewritten)" if bad else "no default arm copying the character")
+                    pc2.append(c)
+            verdict, _res = partial.eval_pc(pc2)
+            if verdict is False:
+                continue
+            if st.kind == "mcall" and st.name == "push" and len(st.args) == 2 and terms.replace(st.args[1], ch, lit) == lit:
+                pushes += 1
+                continue
+            what = st.name if st.kind == "mcall" else f"assignment to {st.name}"
+            problems.append(f"for the character {r!r} the canoniser can also perform `{what}` (line {st.line()})")
+        if pushes == 0:
+            problems.append(f"the character {r!r} is not copied to the canonical string")
+        n_push += pushes
+    rep.check(not problems and bool(loop_ids), rule, "canonize_subform/passthrough", where,
+              f"characters of wild-card labels ({', '.join(PASS_SAMPLE)}) are only ever copied; literal tests exist for {specials}",
+              "; ".join(problems[:3]) if problems else "the loop over the characters was not found")
 
 
 def walk_nodes(n):
